@@ -216,7 +216,7 @@ def job_limits(l):
 
 
 def main():
-    ls = list(range(2, 11)) if TIER == 'thorough' else [2, 3]
+    ls = list(range(2, 7)) if TIER == 'thorough' else [2, 3]
     jobs = [(job_kelvin, {'l': l}) for l in ls] + [(job_limits, {'l': l}) for l in ls]
     # C04 span obligations for the families feeding a uniform solid sphere (independence of Takeuchi/Kamata): imported
     import c04
